@@ -61,6 +61,7 @@ func main() {
 	genLocks(repo, out, ps)
 	genKinds(repo, out, ps)
 	genDecoders(repo, out, ps)
+	genLifecycle(repo, out, ps)
 }
 
 // ---------------------------------------------------------------------------- lock facts
@@ -1279,4 +1280,71 @@ func genDecoders(repo, out string, ps []*packages.Package) {
 	b.WriteString("\n]\n\nend Uniflow.Generated.Decoders\n")
 	_ = os.WriteFile(filepath.Join(out, "Decoders.lean"), []byte(b.String()), 0o644)
 	fmt.Printf("Decoders.lean: %d decoder shapes\n", len(facts))
+}
+
+// ---------------------------------------------------------------------------- lifecycle order
+
+// genLifecycle records the order of the lifecycle calls inside (*Table).load and (*Table).unload
+// and the direction in which each walks the `linked` list.
+func genLifecycle(repo, out string, ps []*packages.Package) {
+	var b strings.Builder
+	b.WriteString("/-\nGENERATED by /verif/extract from pkg/symbol/table.go: the call order inside (*Table).load / unload.\nDo not edit.\n-/\nnamespace Uniflow.Generated.Lifecycle\n\n")
+	n := 0
+	for _, p := range ps {
+		if p.Name != "symbol" {
+			continue
+		}
+		for _, f := range p.Syntax {
+			for _, d := range f.Decls {
+				fd, ok := d.(*ast.FuncDecl)
+				if !ok || fd.Recv == nil || fd.Body == nil || (fd.Name.Name != "load" && fd.Name.Name != "unload") {
+					continue
+				}
+				dir := "none"
+				var calls []string
+				ast.Inspect(fd.Body, func(nd ast.Node) bool {
+					switch x := nd.(type) {
+					case *ast.RangeStmt:
+						if dir == "none" {
+							dir = "forward"
+						}
+					case *ast.ForStmt:
+						if dir == "none" {
+							dir = "forward"
+							if inc, ok := x.Post.(*ast.IncDecStmt); ok && inc.Tok == token.DEC {
+								dir = "reverse"
+							}
+						}
+					case *ast.CallExpr:
+						if sel, ok := x.Fun.(*ast.SelectorExpr); ok {
+							switch sel.Sel.Name {
+							case "exec":
+								if len(x.Args) == 2 {
+									calls = append(calls, "exec:"+exprStr(x.Args[1]))
+								}
+							case "Load", "Unload":
+								calls = append(calls, "hooks:"+exprStr(sel.X)+"."+sel.Sel.Name)
+							case "linked", "isActivated":
+								calls = append(calls, sel.Sel.Name)
+							}
+						}
+					}
+					return true
+				})
+				fmt.Fprintf(&b, "def %sDirection : String := %q\ndef %sCalls : List String := %s\n\n", fd.Name.Name, dir, fd.Name.Name, leanList2(calls))
+				n++
+			}
+		}
+	}
+	b.WriteString("end Uniflow.Generated.Lifecycle\n")
+	_ = os.WriteFile(filepath.Join(out, "Lifecycle.lean"), []byte(b.String()), 0o644)
+	fmt.Printf("Lifecycle.lean: %d functions\n", n)
+}
+
+func leanList2(xs []string) string {
+	q := make([]string, len(xs))
+	for i, x := range xs {
+		q[i] = fmt.Sprintf("%q", x)
+	}
+	return "[" + strings.Join(q, ", ") + "]"
 }
